@@ -4,6 +4,7 @@ import (
 	"bytes"
 	"fmt"
 	"io"
+	"runtime"
 	"strings"
 	"time"
 
@@ -58,6 +59,9 @@ func c05Final(c *ev.Ctx, fs *memfs.FS, srv *p9.Server, what string, det map[stri
 }
 
 func scenarioClass(s string) string {
+	if strings.HasPrefix(s, "burst") {
+		return "burst"
+	}
 	if i := strings.IndexByte(s, ' '); i > 0 {
 		return s[:i]
 	}
@@ -124,6 +128,7 @@ func runC05(c *ev.Ctx) {
 	c05InFlight(c)
 	c05ClunkRace(c)
 	c05TeardownRace(c)
+	c05Burst(c)
 }
 
 // (1) random sequences, then disconnect with fids still bound.
@@ -511,5 +516,87 @@ func c05TeardownRace(c *ev.Ctx) {
 			c05Final(c, w.fs, w.srv, "teardown-race "+sc.name, det)
 			c.Case(fmt.Sprintf("teardown-race:%s:%v", sc.name, own), true)
 		}
+	}
+}
+
+// (7) bursts on one fid number: thousands of repetitions of
+// [bind fid 1, use it, unbind it, use it twice more] leave in a few large
+// writes, with no pause anywhere. The server's goroutines look the fid up
+// while others unbind it; whatever they find, a File is closed once, and only
+// after the last request that found it has finished. No backend gate is used:
+// the windows in question are before any backend call (fid table, reference
+// counts), so the workload has to be fast rather than staged.
+func c05Burst(c *ev.Ctx) {
+	sessions := c.Sz(16, 400)
+	reps := c.Sz(2500, 10000)
+	// the shards share the cores; this workload needs real parallelism
+	defer runtime.GOMAXPROCS(runtime.GOMAXPROCS(8))
+	for si := 0; si < sessions; si++ {
+		if !c.Mine(si) {
+			continue
+		}
+		hungFlag = false
+		c.Begin(fmt.Sprintf("C05 burst session %d", si))
+		fs := memfs.New()
+		fs.MkPath("/a/g", p9.ModeRegular|0644, "x")
+		fs.NoLog = true
+		srv := p9.NewServer(fs)
+		s, vr := newSessOn(srv, 1<<16, v7, nil)
+		if !vr.OK || s.attach(0, "").Errno() != 0 || s.walk(0, 2, "a").Errno() != 0 {
+			c.Inconclusive("C05 burst setup")
+			s.P.Close()
+			continue
+		}
+		unbind := []uint8{wire.Tclunk, wire.Tremove, wire.Twalk}[si%3]
+		var stream []byte
+		nframes := 0
+		for i := 0; i < reps; i++ {
+			tag := uint16(10 + (i%1000)*6)
+			switch si % 4 {
+			case 0, 1:
+				stream = append(stream, wire.Encode(wire.Twalk, tag, u(0), u(1), []string{})...) // clone of the root
+			default:
+				stream = append(stream, wire.Encode(wire.Twalk, tag, u(2), u(1), []string{"g"})...)
+			}
+			stream = append(stream, wire.Encode(wire.Tgetattr, tag+1, u(1), u(1))...)
+			switch unbind {
+			case wire.Tclunk:
+				stream = append(stream, wire.Encode(wire.Tclunk, tag+2, u(1))...)
+			case wire.Tremove:
+				stream = append(stream, wire.Encode(wire.Tclunk, tag+2, u(1))...)
+			default:
+				stream = append(stream, wire.Encode(wire.Twalk, tag+2, u(2), u(1), []string{})...) // rebinds fid 1: the old File goes
+			}
+			stream = append(stream, wire.Encode(wire.Tgetattr, tag+3, u(1), u(1))...)
+			stream = append(stream, wire.Encode(wire.Tgetattr, tag+4, u(1), u(1))...)
+			nframes += 5
+			if (i+1)%1000 == 0 || i == reps-1 {
+				// tags repeat every 1000 repetitions: let the replies drain
+				from := s.P.NReplies()
+				s.P.SendRaw(stream)
+				stream = nil
+				want := from + nframes
+				nframes = 0
+				if out, dump := quiesce.WaitUntil(func() bool { return s.P.NReplies() >= want || s.P.ReadErr() != nil }, 4*wd); out != quiesce.CondMet {
+					hang(c, out, dump, "C05:burst:requests-unanswered", map[string]any{"answered": s.P.NReplies() - from, "sent": want - from})
+					break
+				}
+				if s.P.ReadErr() != nil {
+					c.Violation("C05:burst:connection-ended", map[string]any{"err": s.P.ReadErr().Error()})
+					break
+				}
+				if lv := fs.LifecycleViolations(false); len(lv) > 0 {
+					break // reported below, with the final accounting
+				}
+			}
+		}
+		s.P.Monitor() // replies were not matched to requests (SendRaw): drop the monitor's complaints
+		if !hungFlag {
+			out, dump := s.P.Close()
+			hang(c, out, dump, "C05:Handle-does-not-return:burst", nil)
+			c05Final(c, fs, srv, "burst", map[string]any{"unbind_by": wire.TypeName(unbind), "repetitions": reps})
+		}
+		c.Case(fmt.Sprintf("burst:%s:%d", wire.TypeName(unbind), si%4), true)
+		c.Count("burst_frames", int64(5*reps))
 	}
 }
